@@ -674,6 +674,37 @@ async fn exec_op(me: usize, opi: usize, op: &ClientOp, table: &mut Table, all: &
             let (r, polls) = counted(Repoll { f: fut, extra: *extra as u32 }).await;
             end(me, opi, res_unit(r), polls);
         }
+        ClientOp::JoinDiscard { h } => {
+            let i = need!(me, opi, table, *h, |k| k == K::Owning);
+            let held = table[i].as_mut().unwrap();
+            begin(me, opi, OpWhat::JoinDiscard, Some(held), None);
+            let H::Owning(o) = &mut held.h else { unreachable!() };
+            match o {
+                AnyOwning::A0(o) => drop(o.join()),
+                AnyOwning::A1(o) => drop(o.join()),
+            }
+            end(me, opi, OpRes::Ok, 0);
+        }
+        ClientOp::RegisterHeld { h } => {
+            let i = need!(me, opi, table, *h, |k| k == K::Addr);
+            let held = table[i].as_ref().unwrap();
+            let H::Addr(a) = &held.h else { unreachable!() };
+            let actor = held.actor;
+            let kind = match a {
+                AnyAddr::A0(_) => 0u8,
+                AnyAddr::A1(_) => 1u8,
+            };
+            log(EvKind::OpBegin { client: me, op: opi, what: OpWhat::Reg(RegOp::Register, kind), actor: None, via: None, msg: None });
+            let a = a.clone();
+            let (res, polls) = counted(async move {
+                match a {
+                    AnyAddr::A0(a) => register_held(a, actor).await,
+                    AnyAddr::A1(a) => register_held(a, actor).await,
+                }
+            })
+            .await;
+            end(me, opi, OpRes::Reg(res), polls);
+        }
         ClientOp::JoinStash { h } => {
             let i = need!(me, opi, table, *h, |k| k == K::Owning);
             let held = table[i].as_mut().unwrap();
@@ -1202,6 +1233,22 @@ where
             None => RegRes::TryGot(None),
         },
         RegOp::AlreadyRunning => RegRes::Running(Probe::<K>::already_running().await),
+    }
+}
+
+async fn register_held<const K: u8>(a: Addr<Probe<K>>, actor: ActorId) -> RegRes
+where
+    Probe<K>: Wrap,
+{
+    match a.register().await {
+        Ok((_me, replaced)) => {
+            let replaced = match replaced {
+                Some(r) => Some(actor_of(&r).await.unwrap_or(usize::MAX)),
+                None => None,
+            };
+            RegRes::Registered { me: actor, replaced }
+        }
+        Err(e) => RegRes::RegisterErr { me: actor, err: err_str(e) },
     }
 }
 
